@@ -80,6 +80,12 @@ PATTERNS = [
     ("(?s)a.b", ["a\nb", "axb"], ["ab"]), ("(?m)^ab$", ["ab", "x\nab\ny"], ["abc"]), ("(?x) a b # comment", ["ab"], ["a b"]),
     ("(?a)\\w{3}\\d", ["abc1"], ["\u00e9\u00e9\u00e91"]),
 ]
+# witnesses for patterns that only C01's directed list uses (known finding F42: IGNORECASE with a negation) - never drawn by
+# gen_schema_src, so no other check meets them
+EXTRA_PATTERNS = [
+    ("(?i)[^a]", ["b", "1"], ["a", "A"]), ("(?i)[^a-z]{3}", ["123", "-_-"], ["abc", "ABC"]), ("(?i:[^b])x", ["ax", "1x"], ["bx", "Bx"]),
+    ("(?i)a[^a]", ["ab", "A1"], ["aa", "aA"]), ("(?i)[^a-y]", ["z", "Z", "1"], ["a", "Y"]),
+]
 UUIDS = [uuid.UUID(int=5, version=4), uuid.UUID("886313e1-3b8a-4372-9b90-0c9aee199e5d"),
          uuid.UUID(int=2 ** 127 + 12345, version=4)]
 BAD_UUIDS = [uuid.UUID("00000000-0000-0000-0000-000000000000"),
@@ -392,7 +398,7 @@ def conform(r, s, depth=0):
             return v
         pat = _g(s, "pattern")
         if pat is not Nil:
-            for p, good, bad in PATTERNS:
+            for p, good, bad in PATTERNS + EXTRA_PATTERNS:
                 if p == pat:
                     return r.choice(good)
             return "a"
